@@ -245,6 +245,8 @@ pub fn units(prop: &str, tier: Tier) -> Option<Vec<Unit>> {
                 .alarm(alarm)
                 .lazy()
                 .unit(),
+                // a nested input is a whole input too: consumed completely unless its parser is lazy()
+                nested_unit("nested-wide@contract", tier),
             ]
         }
         "C04" => {
@@ -555,6 +557,8 @@ pub fn units(prop: &str, tier: Tier) -> Option<Vec<Unit>> {
                     .unit(),
                 rec_unit("leftrec", tier),
                 rec_unit("memo-shared-by-clone", tier),
+                // a memoized rule that is active outside a nested input and entered again inside it
+                nested_unit("nested-recursive-memo", tier),
             ]
         }
         "C12" => vec![
@@ -629,7 +633,7 @@ pub fn units(prop: &str, tier: Tier) -> Option<Vec<Unit>> {
                     .unit(),
             ]
         }
-        "C16" => vec![nested_unit("nested-wide", tier), nested_unit("nested-deep", tier)],
+        "C16" => vec![nested_unit("nested-wide", tier), nested_unit("nested-deep", tier), nested_unit("nested-recursive-memo", tier)],
         "C17" => {
             let gs = en::k_core().upto(pick(3, 3));
             let wl: &dyn Fn(G) -> G = &wrap_label;
